@@ -427,7 +427,10 @@ type Observed struct {
 	// Abandoned lists the promises whose result the executor never received (real side only):
 	// delivered but left in the channel, or still outstanding when execution returned.
 	Abandoned []string `json:"abandoned,omitempty"`
-	tree      any
+	// DirectiveErrors (real side only): path-less errors about the uncoercible directive argument
+	// $nv, in append order; not part of Errors.
+	DirectiveErrors []string `json:"directive_errors,omitempty"`
+	tree            any
 }
 
 func (o *Observed) Line(withEvents bool) string {
